@@ -39,6 +39,7 @@ pub fn statics() -> Vec<Vec<u8>> {
         "Static text 18 b€! and some more é!!!".as_bytes().to_vec(),
         "seventeen bytes!!".as_bytes().to_vec(),
         "short".as_bytes().to_vec(),
+        "Static text 18 b€!".as_bytes().to_vec(), // the first one again, at another address
     ]
 }
 
